@@ -21,16 +21,16 @@ CHECKS = {
   text="Exhaustive enumeration on the real constructors, serializer and decoders: all 131072 (stream, function, W) triples x session-id / system-byte / body combinations; every control constructor x all 256 status/reason bytes; all re-stamp/derive chains of length <= 3 on constructed and decoded messages; each compared byte-for-byte with an independent SEMI E37 frame model composed with the E5 reference encoder and decoded back through all decode entry points.",
   note="Codec part. Exhaustive over the stated grid only (8 bodies, 5 session ids, 5 system-byte patterns). Bodies whose frame exceeds the documented 2^24-1 decode cap are outside the round-trip claim. The 'what a connection writes' clause is covered by the exact-frame oracles of C08/C06 (frames read by the scripted peer). Trusted: ref/e37, ref/e5."),
  "C04": dict(engine="E1-enum + E2-bubble", cat="exploration", tech=E1 + "; stream part: " + E2,
-  text="Part (a): exhaustive byte-level enumeration against the three frame-decode entry points (all strings <= 2 bytes, 60 seed frames x every truncation / single-byte mutation / length-field rewrite incl. cap, cap+1, 2^31, 2^32-1 with a 1 MiB allocation bound, all 65536 PType x SType pairs, all data frames with any 1-2 byte body), oracle = E37 accept rule + E5 body verdict + identical error to every holder on every call. Part (b): on a real Selected connection every segmentation (<= 2 cuts, all-singletons) and every in-frame / between-frame delay around T8 of short frame streams; hostile length fields.",
+  text="Part (a): exhaustive byte-level enumeration against the three frame-decode entry points (all strings <= 2 bytes, 60 seed frames x every truncation / single-byte mutation / length-field rewrite incl. cap, cap+1, 2^31, 2^32-1 with a 1 MiB allocation bound, all 65536 PType x SType pairs, all data frames with any 1-2 byte body), oracle = E37 accept rule + E5 body verdict + identical error to every holder on every call. Part (b): on a real Selected connection every segmentation (<= 2 cuts, all-singletons) and every in-frame / between-frame delay around T8 of short frame streams; hostile length fields. Also streams with a 70 000-byte frame, streams with header-rejectable frames that carry a body, and a local send in the middle of an in-frame pause.",
   note="Mutations beyond two bytes are not explored; the concurrent first-call of the lazy decode is covered by C12's race pass. Trusted: ref/e37, ref/e5, synctest, sim."),
  "C05": dict(engine="E3-sched + explicit-state graph search", cat="model_checking", tech="explicit-state BFS over the real supervisor's step/commit functions (state = replayed action history, canonical-key merging) + " + E3,
   text="Layer 1: breadth-first closure (to the stated depth) of all transport-producible action sequences on the REAL supervisor (commits, async injects, requestClose, step, commits landing between step's load and store), oracle after every action = reference in which a state change takes effect exactly when its cause does. Layer 3: every schedule with <= B departures of system scenarios (peer connect/select/deselect/drop vs Close/Open vs T7 clock) on the real instrumented hsmsss connection, invariants evaluated at every scheduling point; one scenario on a real passive secs1 connection (connect vs Close). After the bounded DFS every scenario is also run once per thread with that thread starved (scheduled only when nothing else can run). Layer 1 also replays every history with a stalled notification handler (buffer of 1 and 2 entries) against the coalescing contract.",
   note="Bounded: graph depth and departure bound are reported per run; schedules beyond the bound and scheduling points the instrumenter does not know are not explored. The genuine defects this check found (F5, F6, F7, F8) are repaired in /repo (fix: 68e8d01, 28b19f3, a7c29a2, 3fe639a, e7f57d6); no known finding is left for this property."),
  "C08": dict(engine="E2-bubble + E3-sched", cat="model_checking", tech=E2 + "; schedule part (library-initiated control transactions ending on T6): " + E3,
-  text="Tree search: every history of peer frames of length <= D over a 16-symbol alphabet (all control requests/responses, orphan responses, data, malformed frames, second connect / reconnect) replayed on a fresh real hsmsss connection per history; after EVERY step the exact FIFO of frames the library wrote, State(), handler deliveries and connection liveness are compared with a reference E37 responder; plus depth-1 over every malformed (SType 0..255 x PType x body) frame; passive/active(after and during select) x equip/host x session-id validation.",
+  text="Tree search: every history of peer frames of length <= D over a 16-symbol alphabet (all control requests/responses, orphan responses, data, malformed frames, second connect / reconnect) replayed on a fresh real hsmsss connection per history; after EVERY step the exact FIFO of frames the library wrote, State(), handler deliveries and connection liveness are compared with a reference E37 responder; plus depth-1 over every malformed (SType 0..255 x PType x body) frame; passive/active(after and during select) x equip/host x session-id validation. Bursts of up to 200 (thorough 1000) control requests / malformed frames in one segment: one answer each, in order.",
   note="Depth-bounded (quick 3-4, thorough 4-5); events are separated by quiescence (exact ties are E3's job). Trusted: synctest, sim, the reference responder."),
  "C13": dict(engine="E1-enum", cat="exploration", tech=E1,
-  text="Exhaustive enumeration of messages (all ASCII strings <= 2 over 256 byte values and 3-4 over 19 grammar bytes; numeric vectors over all extremes; binary/boolean vectors; safe JIS-8 / localized text; all list trees <= 4-5 nodes; 18 legal headers) x all 54 strict-encoder option combinations through the real EncodeMessage/ParseStrict; plus every token sequence <= 4-5 over the 26-token alphabet (bare and in 4 seeding contexts): each accepted text re-encoded with all combinations and re-parsed.",
+  text="Exhaustive enumeration of messages (all ASCII strings <= 2 over 256 byte values and 3-4 over 19 grammar bytes; numeric vectors over all extremes; binary/boolean vectors; safe JIS-8 / localized text; all list trees <= 4-5 nodes; 18 legal headers) x all 54 strict-encoder option combinations through the real EncodeMessage/ParseStrict; plus every token sequence <= 4-5 over the 26-token alphabet (bare and in 4 seeding contexts): each accepted text re-encoded with all combinations and re-parsed. All 49,152 legal (stream, function, W) headers on two bodies.",
   note="Exhaustive only over the stated grid; localized text that Go %q escapes and lists with EmptyItem children are observed, not demanded; equality ignores NaN payload and LSH. The genuine defect this check found ('>' unescaped) is repaired in /repo (fix: commit 580939f)."),
  "C15": dict(engine="E1-enum", cat="exploration", tech=E1,
   text="Exhaustive enumeration of the C01 item grid (boundary counts, all value patterns incl. numeric extremes), all list trees <= 5-6 nodes incl. EmptyItem children, depth chains and wide lists: sml.Encode compared byte-for-byte with ToSML; numeric/boolean/binary items parsed back with Parse and ParseStrict and matched against ref/e5 values. History independence: after each non-default rendering of the same item every default entry point still equals ToSML.",
@@ -54,7 +54,7 @@ CHECKS.update({
   text="Exhaustive enumeration on the 38 real constructors/shortcuts (incl. invalid byte sizes) of ALL argument lists of length 0,1,2 (thorough: 3 over a sub-alphabet) over a 416-symbol alphabet (every width-boundary value in every Go integer type, float specials, 57 numeric/non-numeric strings, unsupported kinds, named types, slices), compared with ref/clamp (documented outcome: exact, nearest bound, deferred error) and the universal never-wrapped / count / order invariants; 5041 errored items (direct, nested to depth 3, shared, oversize) are Equal to nothing and refused by every message constructor and every send entry point of the test endpoint.",
   note="Exhaustive only over the stated alphabet and list lengths. Where the docs are silent either a deferred error or exactly the listed value is accepted. A typed-nil list child panicking on use is test-pinned library behaviour (counted, not flagged). The live-connection half of 'never reaches the wire' relies on the constructors' refusal (no message object exists to send)."),
  "C19": dict(engine="E2-bubble + E1-enum", cat="model_checking", tech=E2 + "; failure-accounting functions: " + E1,
-  text="Explicit-state tree search over every peer script of length <= threshold+2 (thorough +3) over 10 per-round peer / application / third-party actions x threshold {1,2,3} x suppression on/off x passive/active, each replayed on a fresh real hsmsss connection and compared with a reference timeline: exact virtual time of every Linktest.req and of the disconnect, linktest counters, probe frame format, 'no probe within one interval of traffic or while a reply is outstanding'. The two pure decision functions are compared on all 3750 rows of their abstract domain; every history of <= 6 (thorough 8) probe rounds x threshold 1..4 x suppression is folded through a faithful copy of runLinktest's failure branch.",
+  text="Explicit-state tree search over every peer script of length <= threshold+2 (thorough +3) over 10 per-round peer / application / third-party actions x threshold {1,2,3} x suppression on/off x passive/active, each replayed on a fresh real hsmsss connection and compared with a reference timeline: exact virtual time of every Linktest.req and of the disconnect, linktest counters, probe frame format, 'no probe within one interval of traffic or while a reply is outstanding'. The two pure decision functions are compared on all 3750 rows of their abstract domain; every history of <= 6 (thorough 8) probe rounds x threshold 1..4 x suppression is folded through a faithful copy of runLinktest's failure branch. Part C: probes of a session re-established after a failed write. Part D: T6 retuned on a live session.",
   note="Bounded script depth and thresholds; no exact frame/timer ties (function level only). Trusted: ref/linktest (from doc comments), synctest, sim."),
 })
 
@@ -63,7 +63,7 @@ CHECKS.update({
   text="Tree search: Selected hsmsss connection (passive/active x host/equipment, two data handlers, T3 3 s), n <= 2 (thorough <= 3) overlapping reply-expected sends; every peer history of length <= 3 (thorough <= 4) over, per open transaction: reply, duplicate reply, odd-function W=0 message, W and non-W primary with colliding system bytes, Reject.req reason {1..5,255}, Select/Deselect/Linktest.rsp with colliding system bytes, ctx cancel; plus unsolicited secondary, T3-1ms, +2ms, peerClose, Close. After every event each call's return value and virtual return time, the per-handler delivery logs and the library's frames are compared with a reference map of open transactions (own reply byte-identical, RejectError reason, ErrT3Timeout at exactly write+T3, ErrConnClosed, ctx error; never (nil,nil); one recipient per inbound data frame). Plus 2^16+10 consecutive system-bytes draws read off the wire. The same for 2000 draws with the counter positioned (build-tag hook) just below 2^24, 2^31 and the 2^32 wrap.",
   note="Depth-bounded; events separated by quiescence (exact ties of reply/T3/cancel are not enumerated by this part). HSMS-SS. The genuine defects this check found are repaired in /repo: a control response colliding with an open data transaction completing it with (nil,nil) (fix: 0542585), the same stray costing the transaction its reply (2f35c30), and a reply that ties with T3 / teardown / cancellation reaching nobody (2cc474c); the last two were found by the E3 part."),
  "C20": dict(engine="E2-bubble + E3-sched", cat="model_checking", tech=E2 + "; schedule part: " + E3,
-  text="Tree search: every history of length <= 3 over a 23-symbol alphabet and <= 4 over 14 symbols (thorough deeper), with at most 3 sends: the 5 send entry points, stall+write-timeout and reset-under-blocked-write errors, reply / Reject / cancel / T3, drop, reconnect, refused dials, Deselect/Select, inbound data, malformed frames, Close. At every quiescent point all eight metrics are compared with a reference ledger of the documented per-outcome vectors and with the peer's own count of data frames received over all TCP generations: in-flight >= 0 and equal to waiting sends, Reconnecting > 0 exactly while the backoff loop runs, 0 after Close.",
+  text="Tree search: every history of length <= 3 over a 23-symbol alphabet and <= 4 over 14 symbols (thorough deeper), with at most 3 sends: the 5 send entry points, stall+write-timeout and reset-under-blocked-write errors, reply / Reject / cancel / T3, drop, reconnect, refused dials, Deselect/Select, inbound data, malformed frames, Close. At every quiescent point all eight metrics are compared with a reference ledger of the documented per-outcome vectors and with the peer's own count of data frames received over all TCP generations: in-flight >= 0 and equal to waiting sends, Reconnecting > 0 exactly while the backoff loop runs, 0 after Close. A SECS-I ledger (checks/c20t) over histories of peer/application events incl. retransmitted blocks and a send cancelled while its ACK is outstanding.",
   note="Depth-bounded; the E2 parts look at quiescent points, the E3 part (checks/c20s) at every scheduling point of its scenarios (gauge under overlapping completions, reply/T3 tie, overlapping reconnect loops); HSMS-SS by the full alphabet, SECS-I by part checks/c20t (histories <= 3 over 8 events incl. retransmitted blocks); Reconnects() checked for the active role. Trusted: synctest, sim, ledger derived from the doc comments."),
 })
 
